@@ -62,6 +62,7 @@ def instrument(src, subname, steps):
     from psyclone.psyir.transformations import TransformationError
     psy.reset_state()
     instrument.exit_in_region = False
+    instrument.return_in_region = []
     tree = psy.read(src)
     routine = psy.routine_of(tree, subname)
     accepted = []
@@ -84,7 +85,10 @@ def instrument(src, subname, steps):
             # neither refusal nor acceptance: do not judge this history
             return None, accepted, control
         accepted.append((name, rname))
-        from psyclone.psyir.nodes import CodeBlock
+        from psyclone.psyir.nodes import CodeBlock, Return
+        for nod in nodes:
+            if nod.walk(Return):
+                instrument.return_in_region.append(name)
         for nod in nodes:
             for blk in nod.walk(CodeBlock):
                 if any(type(a).__name__ in ("Exit_Stmt", "Cycle_Stmt")
@@ -236,7 +240,17 @@ def cls_exit_cycle_in_region(case):
     return bool(instrument.exit_in_region)
 
 
-CLASSIFIERS = {"exit_or_cycle_leaves_region": cls_exit_cycle_in_region}
+def cls_extract_return_in_region(case):
+    """ExtractTrans accepted a region that contains a RETURN statement
+    (its excluded node types, unlike PSyDataTrans', do not list Return)."""
+    if case.get("bucket") != "trace":
+        return False
+    instrument(case["module"], "s" + case["uid"], case["steps"])
+    return "extract" in instrument.return_in_region
+
+
+CLASSIFIERS = {"exit_or_cycle_leaves_region": cls_exit_cycle_in_region,
+               "extract_region_contains_return": cls_extract_return_in_region}
 
 
 def replay(case, want=None):
